@@ -219,6 +219,9 @@ def _check(prop, tier, seed, py, modname, plan, scratch, ev_path, t0):
             counts[k] = counts.get(k, 0) + v
         if r.get('samples'):
             samples.append({'slice': sid, 'path': r['samples'][-1]})
+        ex = r.get('extra') or {}
+        z3_queries += int(ex.get('z3_queries', 0))
+        solver_s += float(ex.get('z3_solver_s', 0.0))
         for fkey, krec in (r.get('known_hits') or {}).items():
             # a recorded finding was met on some path: confirm natively before printing KNOWN-FINDING
             ok_n, doc = _replay(py, t, {'fails': [krec]}, scratch, twin=False)
